@@ -33,10 +33,53 @@ PLAN = {
 
 
 def gen_case(rng, tier, idx):
-    return E.gen_engine_case(rng, tier, fault_rate=0.2)
+    case = E.gen_engine_case(rng, tier, fault_rate=0.2)
+    if rng.random() < 0.15 and not E.has_second_phase(case):
+        case["enable_via_config"] = rng.choice(["default-off", "default-on"])
+    return case
+
+
+def run_config_case(spec, ctx):
+    """enable/disable through the configuration path (insights.apply_default_enabled + apply_configs) applied AFTER a
+    first evaluation with everything enabled - the state a long-running process or a test session is in"""
+    import copy
+    import insights
+    from insights.core import dr
+    all_on = copy.deepcopy(spec["graph"])
+    for nd in all_on["nodes"]:
+        nd["enabled"] = True
+    r1 = E.execute(spec, spec=all_on)
+    saved, snapshot = dr.ENABLED, dict(dr.ENABLED)
+    try:
+        for mech, wit in E.oracle_c02(r1):
+            ctx.violation(mech, dict(wit, evaluation="before the configuration was applied"))
+        b = r1.built
+        default = spec["enable_via_config"] == "default-off"
+        nodes = spec["graph"]["nodes"]
+        if default:
+            cfg = {"default_component_enabled": False,
+                   "configs": [{"name": dr.get_name(b.comps[i]), "enabled": True} for i, nd in enumerate(nodes) if nd["enabled"]]}
+        else:
+            cfg = {"default_component_enabled": True,
+                   "configs": [{"name": dr.get_name(b.comps[i]), "enabled": False} for i, nd in enumerate(nodes) if not nd["enabled"]]}
+        insights.apply_default_enabled(cfg)
+        insights.apply_configs(cfg)
+        ctx.count("configurations_applied_after_a_first_evaluation")
+        r2 = E.execute(spec, built=b, spec=spec["graph"])
+        for mech, wit in E.oracle_c02(r2):
+            ctx.violation(mech, dict(wit, evaluation="after apply_default_enabled/apply_configs", default_component_enabled=not default))
+        ctx.count("nodes_disabled_through_configuration", sum(1 for nd in nodes if not nd["enabled"]))
+        return any(not nd["enabled"] for nd in nodes)
+    finally:
+        saved.clear()
+        saved.update(snapshot)
+        dr.ENABLED = saved
+        r1.built.cleanup()
 
 
 def run_case(spec, ctx):
+    if spec.get("enable_via_config"):
+        return run_config_case(spec, ctx)
     r = E.execute(spec)
     try:
         for mech, wit in E.oracle_c02(r):
